@@ -51,7 +51,7 @@ void run_case(ByteSource& s, CaseInfo& ci) {
   ci.nontrivial = true;
   ci.label(fmt("%s-d%d", CLS[k], d)); ci.label(order ? "ordered" : "unordered");
   ci.sample = fmt("GetEigenSystem(order=%d) d=%d class=%s comps=%s", (int)order, d, CLS[k], vec_str(c).c_str());
-  SU_vector v = make_vec(c, d);
+  VecHolder hv; SU_vector& v = hv.make(c, d, s.tail_choose(8)); ci.label(std::string("storage-") + hv.kind);  // the storage kind must not matter
   Mat M = toM(c, d);
   auto es = v.GetEigenSystem(order);
   CHECK(es.first && es.second && (int)es.first->size == d && (int)es.second->size1 == d && (int)es.second->size2 == d, "C12|GetEigenSystem|shape", "d=%d", d);
